@@ -169,6 +169,10 @@ def templates(W, tier, rng):
             for (kl, kr) in pairs:
                 for pos in (['value'] if quick else ['value', 'byteval', 'arg', 'stored']):
                     yield dict(fam='arith', op=op, tl=tl, tr=tr, kl=kl, kr=kr, pos=pos, W=W)
+    for op in list(ARITH) + list(CMP):
+        for big in range(4):
+            for (kl, kr) in (('param', 'lit'), ('lit', 'param')) + ((('call', 'lit'), ('lit', 'global')) if not quick else ()):
+                yield dict(fam='arith' if op in ARITH else 'cmp', op=op, tl='int', tr='int', kl=kl, kr=kr, pos='value', W=W, big=big)
     # compound assignment on variable / array element / byte variable
     for op in ARITH:
         for tgt in ('var', 'elem', 'gvar', 'bytevar', 'byteelem'):
@@ -198,6 +202,11 @@ def templates(W, tier, rng):
                     continue
                 for pos in ('value', 'branch', 'defeat') + (('else-defeat', 'then-defeat') if (kl, kr) in (('cmp', 'cmp'), ('var', 'call'), ('cast', 'elem')) or not quick else ()) + (() if quick else ('stored', 'while')):
                     yield dict(fam='bool2', op=op, kl=kl, kr=kr, pos=pos, W=W)
+    # a negated compound condition in every position (the generator peels `not` off conditions in several places)
+    for op in ('==', '!=', 'and', 'or'):
+        for (kl, kr) in (('cmp', 'cmp'), ('var', 'call'), ('cast', 'elem'), ('call', 'var')) + ((('elem', 'cmp'), ('cmp', 'lit'), ('lit', 'var')) if not quick else ()):
+            for pos in ('value', 'branch', 'defeat', 'while', 'else-defeat', 'then-defeat'):
+                yield dict(fam='bool2', op=op, kl=kl, kr=kr, pos=pos, W=W, negate=True)
     for kl in bkinds[:-1]:
         for pos in ('value', 'branch', 'defeat', 'stored', 'else-defeat', 'then-defeat'):
             yield dict(fam='not', kl=kl, pos=pos, W=W)
@@ -275,6 +284,10 @@ def make(task):
     arrays = {}
 
     def opnd(name, typ, kind):
+        if kind == 'lit' and 'big' in task:
+            # a literal outside the signed word range next to a non-constant operand: nothing is folded, the assembler wraps it
+            c = [(1 << (8 * W - 1)), (1 << (8 * W - 1)) + 1, (1 << (8 * W)) - 1, (1 << (8 * W)) + 5][task['big']]
+            return Opnd(name, typ, kind, ('%d' % c, c))
         if kind == 'lit' and 'li' in task:
             return Opnd(name, typ, kind, lits(W, typ)[task['li']])
         return Opnd(name, typ, kind, rng.choice(lits(W, typ)) if kind == 'lit' else None)
@@ -326,6 +339,8 @@ def make(task):
         l, fl = bool_operand('A', task['kl'], T)
         r, fr = bool_operand('B', task['kr'], T)
         expr = '%s %s %s' % (l.text, task['op'], r.text)
+        if task.get('negate'):
+            expr = 'not (%s)' % expr
         src = program([l, r], use_text(task['pos'], expr, True), helpers)
 
         def oracle(T, inputs):
@@ -339,6 +354,8 @@ def make(task):
                 v = T.arith('and', lv, rv)
             else:
                 v = T.arith('or', lv, rv)
+            if task.get('negate'):
+                v = T.arith('xor', v, 1)
             return observe(T, task['pos'], [([], v)])
         return src, oracle, arrays
     if fam in ('not', 'notnot'):
